@@ -634,7 +634,7 @@ def main():
         rc_m, model, dt_m = run_model(lines, pid)
         extra['impl_wall_s'] = round(dt_i, 2)
         extra['model_wall_s'] = round(dt_m, 2)
-        project = proj_sqrt if pid in ('C18', 'C16', 'C17') else None
+        project = None
         FL = r' (MUTATED:\S+|REPEAT-DIFF|RESULT-CHANGED|SCRIBBLE-GLOBALS|SCRIBBLE-DIFF)'
         if pid != 'C17':
             # purity flags (argument / package state modified, result changed by a later call,
@@ -983,6 +983,28 @@ def predicates(pid, cases, impl):
                 x, y = (int(s) for s in o.split())
                 if not (0 <= x < M.Q and 0 <= y < M.Q and M.on_curve((x, y))):
                     bad(i, 'result is not a canonical curve point')
+            if op in ('ff', 'ffg') and ('sqrt' in t[1:4]) and o not in ('PANIC', 'OUTOFFUEL'):
+                # Sqrt judged against the definition, not against the model: a returned root squares to
+                # the operand; nil only for a non-residue, and then the destination is left as it was
+                pp = M.Q if op == 'ff' else M.PG
+                rinv = M.inv(M.R256 % M.Q) if op == 'ff' else M.inv(2**64 % M.PG, M.PG)
+                k = t.index('sqrt') if 'sqrt' in t else t.index('sqrtalias')
+                alias = t[k] == 'sqrtalias'
+                xraw = int(t[k + 1]) if alias else int(t[k + 2])
+                draw = xraw if alias else int(t[k + 1])
+                xv = xraw * rinv % pp
+                f = o.split()
+                if f[0] == 'nil':
+                    if xv == 0 or pow(xv, (pp - 1) // 2, pp) == 1:
+                        bad(i, 'Sqrt reports no root for a square')
+                    elif int(f[1]) != draw:
+                        bad(i, 'Sqrt changed its destination although it reports no root')
+                else:
+                    zv = int(f[0]) * rinv % pp
+                    if not (0 <= int(f[0]) < pp) or zv * zv % pp != xv:
+                        bad(i, 'Sqrt returned a value whose square is not the operand')
+                    elif f[1] != f[0]:
+                        bad(i, 'Sqrt: destination differs from the returned value')
             if pid == 'C07' and o == 'PANIC':
                 bad(i, 'entry point panicked')
             if pid == 'C15' and o == 'PANIC':
